@@ -118,6 +118,13 @@ theorem failed_access_leaves_stack (s : Stk) (op : Op) (h : (step s op).2 = .non
     | some x => cases hs : splitPop x.1 ws with
       | none => simp [hv, hs] at h; split at h <;> simp at h
       | some y => simp [hv, hs] at h
+  case cEval => cases hv : vecPop s with
+    | none => simp
+    | some x => simp [hv] at h
+  case cFrame need takes puts w =>
+    exfalso
+    simp only [frameCanon] at h
+    (repeat' split at h) <;> simp at h
 
 /-- The documented `# Panics` of the panicking accessors: exactly on an empty / too shallow stack. -/
 theorem panics_iff (s : Stk) (d n : Nat) :
